@@ -12,13 +12,13 @@ QUICK = {
     "gen": dict(length=30),
 }
 THOROUGH = {
-    "exhaustive": [("2sess-1mbox-3msgs-depth9", dict(depth=9, maxid=3)),
+    "exhaustive": [("2sess-1mbox-3msgs-depth8", dict(depth=8, maxid=3)),
                    ("2sess-2mbox-depth6", dict(depth=6, maxid=3, mbox=("inbox", "b"),
                                                acts=ACTS + ["Copy", "Move", "Search"]))],
     "simulate": [("2mbox", dict(mbox=("inbox", "b"), maxid=6, maxpend=8, sets="SetsMedium",
                                  modes=("+", "-", "="), silents="{FALSE, TRUE}",
-                                 acts=ACTS + ["Copy", "Move", "Search"]), 1500, 30)],
-    "random": 1500,
+                                 acts=ACTS + ["Copy", "Move", "Search"]), 800, 30)],
+    "random": 800,
     "gen": dict(length=45),
     "tlc_timeout": 3000,
 }
